@@ -2,11 +2,11 @@
 (set-info :status unknown)
 (declare-fun attempts!1 () Int)
 (assert
- (let (($x11 (not (<= 1 attempts!1))))
- (not $x11)))
+ (let (($x12 (not (<= 1 attempts!1))))
+ (not $x12)))
 (assert
  (= 1 attempts!1))
 (assert
- (let (($x32 (>= attempts!1 1)))
-(not $x32)))
+ (let (($x33 (>= attempts!1 1)))
+(not $x33)))
 (check-sat)
